@@ -15,6 +15,8 @@ import Dmn.Model.DecSpec
 * `(c02 judge <name> A [B] R)` → `(judge S)`: the specification applied to a given result;
 * `(c02 feel <name> X [Y])` with operands that may be special → `(feel F)`: `FeelNumber`
   operators on values that may already be infinite / NaN;
+* `(c02 modexact A B)` → `(modexact true|false)`: `modExact` — every intermediate step of
+  `a − b·floor(a / b)` is exact (the hypothesis of `modulo_correct_partial`);
 * `(c02 cmp A B)` → `(cmp lt|eq|gt)`. -/
 
 namespace Dmn.Driver.C02
@@ -71,6 +73,7 @@ def opAnswer (name : String) (a : D128) (b : Option D128) (k : Option Int) : Opt
     some (showR r, showR r, "na")
   | "modulo", some b, _ =>
     let r := FNum.modulo (.fin a) (.fin b)
+    -- the verdict of `ModuloSpec` on this (reduced) answer is asked for separately (`judgev modulo`)
     some (showR r, showR r, "na")
   | "even", none, _ =>
     -- raw: `dec_is_zero(dec_remainder(a, 2))` (dec.rs); F: `FeelNumber::even`
@@ -102,6 +105,8 @@ def judge (name : String) (a : D128) (b : Option D128) (k : Option Int) (r : D12
   | "div", some b, _ => some (decide (DivSpec a b r))
   | "sqrt", none, _ => some (decide (SqrtSpec a r))
   | "rescale", none, some k => some (decide (RescaleSpec a k r))
+  -- the mathematical modulo `a − b·⌊a/b⌋`, computed exactly, rounded once (`b ≠ 0`)
+  | "modulo", some b, _ => if b.coeff = 0 then none else some (decide (ModuloSpec a b r))
   | "floor", none, _ => match r with
     | .fin d => some (decide (FloorSpec a d))
     | _ => some false
@@ -219,6 +224,10 @@ def handle (args : List Sexp) : String :=
       | some (r, f, s) => s!"(op {r} {f} {s})"
       | none => "(error unknown-op)"
     | none => "(error bad-operand)"
+  | [.atom "modexact", a, b] =>
+    match dec? a, dec? b with
+    | some a, some b => s!"(modexact {boolStr (modExact a b)})"
+    | _, _ => "(error bad-operand)"
   | [.atom "judgepow", a, n, r] =>
     match dec? a, Sexp.int? n, decR? r with
     | some a, some n, some r =>
